@@ -4,8 +4,14 @@
    numeric carrier, its operations, the unit constants and ALL oracles. *)
 From Coq Require Import String List Bool ZArith QArith.
 From SpdVerif Require Import Base.CfgNumOps Spec.ConfigSpec Gen.ConfigTables Gen.ConfigSites Model.ConfigTypes Model.Config Model.NumInst
-  Proofs.C17_rules Proofs.C17_finite Proofs.C17_entry Proofs.C17_current.
+  Proofs.C17_rules Proofs.C17_finite Proofs.C17_entry Proofs.C17_current Gen.CfgSteps Proofs.CfgSteps_eq.
 Import ListNotations.
+
+(* The model IS the source: the statement-by-statement translation of SPDCConfig::try_as_spdc generated from the source
+   (Gen/CfgSteps.v: every `?` a bind, every mutation a new version) equals the model the theorems below are about. *)
+Theorem C17_try_as_spdc_is_generated : forall num (o : NumOps num) U K minpos rj (c : spdc_cfg num),
+  gen_try_as_spdc_steps o U K minpos rj c = try_as_spdc_steps o U K minpos rj c.
+Proof. exact gen_try_as_spdc_steps_eq. Qed.
 
 (* error rule 1: both or neither of the signal's internal and external angle *)
 Theorem C17_rule_signal_angles : forall num (o : NumOps num) U K minpos rj (c : spdc_cfg num),
@@ -223,6 +229,7 @@ Proof. vm_compute. reflexivity. Qed.
 Example C17_ex_bad_period : try_as_spdc_now Q_ops ex_units ex_oracles (1 # 1000000000000) (ex_cfg 1550 (Param 90) (PCConfig (Param 0) ACOff)) = Err EBadPeriod.
 Proof. vm_compute. reflexivity. Qed.
 
+Print Assumptions C17_try_as_spdc_is_generated.
 Print Assumptions C17_flags_now.
 Print Assumptions C17_rule_signal_le_pump.
 Print Assumptions C17_rule_signal_angles_now.
